@@ -215,7 +215,8 @@ def _one_quic(job):
     mk = lambda st: dict(suite=st, first="same", split=[1], twoPkts=False, retry=False, zrtt=False, coalesce=True, cfApp=True, hist=quic_hist(gens), out=[], kf=False)
     try:
         vq, _ = build_quic(mk(suite), seed, dict(pnlen={"c": 2, "s": 2}, c_cid_len=rng.choice([0, 8]), s_cid_len=8))
-        bq, _ = build_quic(mk("1301"), seed + 1, dict(pnlen={"c": 1, "s": 2}))
+        # the healthy QUIC bystander uses connection IDs of any legitimate length, zero included (RFC 9000 5.1)
+        bq, _ = build_quic(mk("1301"), seed + 1, dict(pnlen={"c": 1, "s": 2}, c_cid_len=rng.choice([0, 0, 8, 20]), s_cid_len=rng.choice([0, 4, 8])))
         bt = TlsConn(R.TLS12, suites()[0xC02F], seed=seed + 2)
         bt.app("c", 30)
         bt.app("s", 500)
@@ -276,11 +277,26 @@ def _one_quic(job):
         for t in rng.sample([1, 5, 6, 7, 20, 23, max(1, plen - 1)], 2 if quick else 7):
             if 0 < t < plen:
                 faults.append(dict(kind="truncate", pkt=i, to=t))
+    # foreign UDP traffic between other endpoints: arbitrary payloads, among them ones shaped like short- and long-header QUIC packets
+    for _ in range(3 if quick else 12):
+        ln = rng.choice([1, 5, 21, 22, 40, 300, 1200, 1500])
+        first = rng.choice([0x40 | rng.getrandbits(6), 0xC0 | rng.getrandbits(6), rng.getrandbits(8)])
+        body = bytes(rng.getrandbits(8) for _ in range(ln - 1))
+        if first & 0x80 and ln > 8 and rng.random() < 0.7:
+            body = b"\x00\x00\x00\x01" + bytes([rng.choice([0, 8, 20, 21, 255])]) + body[5:]
+        faults.append(dict(kind="foreign_udp", payload=(bytes([first]) + body).hex(), at=rng.randrange(len(merged) + 1), port=rng.choice([443, 4433, 53])))
+    fx = mk_flow(7, sport=443)
     results = []
     for f in faults:
         frames, kl = list(merged), list(keylog)
         k = f["kind"]
-        if k == "drop":
+        if k == "foreign_udp":
+            fxp = mk_flow(7, sport=f["port"])
+            extra = [udp_frame(fxp, "c", bytes.fromhex(f["payload"])), udp_frame(fxp, "s", bytes.fromhex(f["payload"])[::-1])]
+            for e in extra:
+                stamp[id(e)] = stamp[id(merged[min(f["at"], len(merged) - 1)])] + (1 if f["at"] < len(merged) else 2000)
+            frames = frames[:f["at"]] + extra + frames[f["at"]:]
+        elif k == "drop":
             frames = [fr for i, fr in enumerate(frames) if i != f["pkt"]]
         elif k == "cut_before":
             frames = [fr for i, fr in enumerate(frames) if not (owner[i][0] == "v" and i < f["pkt"])]
@@ -309,6 +325,8 @@ def _one_quic(job):
                 bad.append("QUIC bystander is exported differently from the fault-free run")
             if got["t"] != base["t"]:
                 bad.append("TLS bystander is exported differently from the fault-free run")
+            if k == "foreign_udp" and got["v"] != base["v"]:
+                bad.append("victim (here: a third healthy QUIC flow) is exported differently once foreign UDP datagrams are in the capture")
             if k in ("drop",) and not is_sublist(got["v"], vtruth):
                 bad.append("victim: exported datagrams are not an order-preserving sub-list of the datagrams sent (altered or invented data)")
             if k in ("cut_before", "cut_after", "rmkeys") and not (is_sublist(got["v"], vtruth)):
